@@ -16,6 +16,10 @@
 namespace ctpg
 {
 
+#ifdef CTPG_VERIF
+struct verif_access;
+#endif
+
 using size_t = std::size_t;
 using size8_t = std::uint8_t;
 using size16_t = std::uint16_t;
@@ -2069,6 +2073,9 @@ public:
     }
 
 private:
+#ifdef CTPG_VERIF
+    friend struct ::ctpg::verif_access;
+#endif
     static const size_t max_rule_element_count = meta::max_v<1, Rules::n...>;
     static const size16_t eof_idx = sizeof...(Terms);
     static const size16_t error_recovery_token_idx = sizeof...(Terms) + 1;
@@ -3507,6 +3514,9 @@ namespace regex
         }
 
     private:
+#ifdef CTPG_VERIF
+        friend struct ::ctpg::verif_access;
+#endif
         dfa<dfa_size> sm;
     };
 }
